@@ -117,12 +117,31 @@ TREE = [
     ("outside/back_link.txt", "link", "../root/in.txt"), ("outside/root_link", "link", "../root"),
     ("rootx/evil.txt", _F, 64), ("root_link", "link", "root"),
 ]
+
+
+def edge_name(n: int, ext: str = ".txt") -> str:
+    """A file name of exactly n bytes (n around NAME_MAX = 255 on the usual POSIX file systems)."""
+    head = f"n{n}-"
+    return head + "x" * (n - len(head) - len(ext)) + ext
+
+
+# Regular files inside the root whose names are as long as the file system allows: any name derived from them
+# (pre-compressed sibling "<name>.br"/"<name>.gz", temporary names) falls on either side of NAME_MAX, so a lookup
+# of the derived name fails with ENAMETOOLONG instead of ENOENT.  n251: both siblings fit (and are absent);
+# n252: siblings are exactly NAME_MAX long, the .gz one exists; n253..n255: no sibling name can exist.
+# Appended after the original entries so that their indices (content, mtime) stay what they were.
+NAME_MAX = 255
+EDGE = {edge_name(n): "root/" + edge_name(n) for n in (NAME_MAX - 4, NAME_MAX - 3, NAME_MAX - 2, NAME_MAX - 1, NAME_MAX)}
+EDGE_SIZES = (64, 17, 65, 16, 200)
+TREE += [(rel, _F, sz) for rel, sz in zip(EDGE.values(), EDGE_SIZES)]
+TREE.append(("root/" + edge_name(NAME_MAX - 3) + ".gz", _F, 15))
+_EDGE_RELS = {e[0] for e in TREE[-(len(EDGE) + 1):]}
 _FRACS = (0, 500_000_000, 250_000_000)
 FILES = {}     # rel -> (size, mtime_ns, index)
 for _i, _e in enumerate(x for x in TREE if x[1] == _F):
     FILES[_e[0]] = (_e[2], (T0 + 1000 * _i) * 10 ** 9 + _FRACS[_i % 3], _i)
 # plain names under the root -> the tree file they finally denote (None: nothing servable)
-AIM = {n[5:]: n for n in FILES if n.startswith("root/")}
+AIM = {n[5:]: n for n in FILES if n.startswith("root/") and n not in _EDGE_RELS}
 AIM.update({"in_link.txt": "root/in.txt", "in_dirlink/deep.txt": "root/sub/deep.txt", "out_link.txt": "outside/linked.txt",
             "abs_out_link.txt": "outside/linked.txt", "out_dir/inner.txt": "outside/dir/inner.txt"})
 OTHER_PLAIN = ["", "sub", "sub/", "in_dirlink", "in_dirlink/", "out_dir", "out_dir/", "loop_a", "loop_a/x", "selfloop",
@@ -224,8 +243,13 @@ def tree() -> _Tree:
         if e[1] == _F:
             size, mt, idx = FILES[e[0]]
             data = content(e[0], size, idx)
-            with open(p, "wb") as f:
-                f.write(data)
+            try:
+                with open(p, "wb") as f:
+                    f.write(data)
+            except OSError:
+                if e[0] in _EDGE_RELS:      # a file system with a smaller NAME_MAX: the name then denotes nothing
+                    continue
+                raise
             os.utime(p, ns=(mt, mt))
             st = os.stat(p)
             t.data[p] = data
@@ -450,6 +474,30 @@ def gen_io_req(rng, chunk):
     return mkreq(PREFIX + "/" + name, h, plain=name, cat="io")
 
 
+EDGE_AE = [None, "gzip", "br", "gzip, br", "br, gzip", "GZIP", "identity", "deflate", "gzip, deflate, br"]
+
+
+def gen_edge_req(rng, chunk):
+    """A file whose name is NAME_MAX-4 .. NAME_MAX bytes long, with the headers that make the server derive
+    other names from it (Accept-Encoding) and the range / conditional headers of the other modes."""
+    name = rng.choice(sorted(EDGE))
+    aim = EDGE[name]
+    size = FILES[aim][0]
+    h = []
+    ae = rng.choice(EDGE_AE)
+    if ae is not None:
+        h.append(["Accept-Encoding", ae])
+    r = rng.random()
+    if r < 0.35:
+        h.append(["Range", rng.choice(range_specs(size, chunk))])
+    elif r < 0.45:
+        h.append(["If-None-Match", rng.choice(etag_forms(etag_of(aim))[1:])])
+    elif r < 0.5:
+        h.append(["If-Modified-Since", rng.choice(date_forms(lm_of(aim))[1:])])
+    rng.shuffle(h)
+    return mkreq(PREFIX + "/" + name, h, "HEAD" if rng.random() < 0.1 else "GET", plain=name, cat="edge")
+
+
 def gen(rng, tier, index):
     faulty = index % 2 == 1
     chunk = rng.choice(CHUNKS)
@@ -494,6 +542,10 @@ def gen(rng, tier, index):
         if rng.random() < 0.12:
             faults["exec_fail"] = {"job": rng.choice(["_resolve_path_to_response", "_make_response", "_seek_and_read", "read"]),
                                    "nth": rng.randint(1, 4), "err": rng.choice(["OSError", "PermissionError"])}
+    # drawn last (the scenarios above keep their shape): one request for a file with a name of boundary length
+    if rng.random() < 0.12:
+        c = rng.choice(conns)
+        c["reqs"].insert(rng.randrange(len(c["reqs"]) + 1), gen_edge_req(rng, chunk))
     return {"cfg": cfg, "conns": conns, "faults": faults, "meta": {"mode": mode, "faulty": faulty}}
 
 
@@ -545,6 +597,12 @@ def enumerate_cases(tier, seed):
                     for rg in (None, "bytes=1-5", "bytes=-3"):
                         h = ([["Accept-Encoding", ae]] if ae else []) + ([["Range", rg]] if rg else [])
                         reqs.append(mkreq(PREFIX + "/" + n, h, plain=n, cat="misc"))
+            # names of boundary length (NAME_MAX-4 .. NAME_MAX) x Accept-Encoding x Range
+            for n in sorted(EDGE):
+                for ae in (None, "gzip", "br", "gzip, br", "GZIP", "identity"):
+                    for rg in (None, "bytes=1-5", "bytes=-3"):
+                        h = ([["Accept-Encoding", ae]] if ae else []) + ([["Range", rg]] if rg else [])
+                        reqs.append(mkreq(PREFIX + "/" + n, h, plain=n, cat="edge"))
             yield from _enum_pack(cfg, reqs, "dirs")
     # 2. range lattice
     chunks = (3, 16) if tier == "quick" else (1, 3, 16, 64)
@@ -613,6 +671,12 @@ def shrink(scn):
                 yield with_c(reqs=c["reqs"][:j] + [r2] + c["reqs"][j + 1:])
             if r["m"] != "GET":
                 yield with_c(reqs=c["reqs"][:j] + [dict(r, m="GET")] + c["reqs"][j + 1:])
+            if r["cat"] == "edge" and r["plain"] in EDGE:
+                # an ordinary name first, then the next shorter boundary name (same headers)
+                alts = ["f17.bin"] + [n for n in sorted(EDGE) if len(n) == len(r["plain"]) - 1]
+                for n in alts:
+                    r2 = dict(r, t=PREFIX + "/" + n, plain=n, cat="edge" if n in EDGE else "misc")
+                    yield with_c(reqs=c["reqs"][:j] + [r2] + c["reqs"][j + 1:])
         if c["kill"] is not None:
             kk = c["kill"]
             for key in ("step", "at"):
@@ -1160,4 +1224,6 @@ def oracle_selftest():
     assert len(content("x", 0, 1)) == 0 and len(content("x", 1, 1)) == 1 and len(content("x", 65, 1)) == 65
     assert lattice(0, 16) == [0, 1] and lattice(16, 16) == [0, 1, 15, 16, 17]
     assert "bytes=-" in range_specs(1, 16) and "bytes=0-0" in range_specs(1, 16) and "bytes=-1" in range_specs(1, 16)
+    assert sorted(len(n) for n in EDGE) == [251, 252, 253, 254, 255] and all(EDGE[n] in FILES for n in EDGE)
+    assert not any(n in AIM for n in EDGE) and FILES["root/in.txt"][2] == 13
     assert spell("outside_secret", "%2e%2e", "%2f") == "/static/%2e%2e%2foutside%2fsecret.txt"
